@@ -562,12 +562,12 @@ class ExcelInPython:
     def _iferror(self, condition_function, when_error):
         try:
             cell = condition_function()
-            if self._find_error_in_list([cell]):
-                return when_error
-            else:
+            if not self._find_error_in_list([cell]):
                 return cell
         except:
-            return when_error
+            pass
+        # the fallback is evaluated only when it is needed (a plain value is accepted as well)
+        return when_error() if callable(when_error) else when_error
     
     def _when_cell_is_empty_cast_to_zero(self, iterable: List):
         return [0 if isinstance(i, self.EmptyCell) else i for i in iterable]
@@ -740,14 +740,17 @@ class ExcelInPython:
         return len(empty)
 
     def _ifs(self, flatten_list: List):
-        err_value = self._find_error_in_list(flatten_list)
-        if err_value:
-            return err_value
-
+        # conditions and values may be thunks, so that only the conditions up to the first true one and
+        # the value paired with it are evaluated; an error in a condition that is reached is the result
         index = 0
         while index < len(flatten_list):
-            if flatten_list[index]:
-                return flatten_list[index + 1]
+            condition = flatten_list[index]() if callable(flatten_list[index]) else flatten_list[index]
+            err_value = self._find_error_in_list([condition])
+            if err_value:
+                return err_value
+            if condition:
+                value = flatten_list[index + 1]
+                return value() if callable(value) else value
             index += 2
 
         return '#N/A'
